@@ -37,7 +37,7 @@ func verifDir() string {
 
 // overlayFiles maps virtual paths inside /repo to real files under /verif/harness.
 // Nothing is ever written into /repo.
-func overlayFiles() map[string]string {
+func overlayFiles(withInpkg bool) map[string]string {
 	ov := map[string]string{}
 	h := filepath.Join(verifDir(), "harness")
 	add := func(srcDir, dstDir, prefix string) {
@@ -51,8 +51,60 @@ func overlayFiles() map[string]string {
 	}
 	add("vh", "zzverif/vh", "")
 	add("ext", "zzverif/ext", "")
-	add("inpkg", "src", "zz_verif_")
+	if withInpkg {
+		add("inpkg", "src", "zz_verif_")
+	} else {
+		for virt := range ov {
+			if strings.HasSuffix(virt, "_inpkg.go") {
+				delete(ov, virt)
+			}
+		}
+	}
 	return ov
+}
+
+// rewrittenEvaluator regenerates, from /repo's current src/evaluator.go, the variant
+// used by the in-package one-step harnesses: the bodies of evalExpr and evalStatement
+// are kept verbatim under the names evalExprReal / evalStatementReal and two thin
+// wrappers send every recursive evaluation to the harness's summaries while
+// vhSummarise is set. The same text is used by the engine and by the native replay
+// build, so summarised outcomes replay natively. If the anchors are gone (a
+// refactoring renamed them) the in-package checks are skipped, not failed.
+func rewrittenEvaluator() ([]byte, error) {
+	b, err := os.ReadFile(filepath.Join(repoDir, "src", "evaluator.go"))
+	if err != nil {
+		return nil, err
+	}
+	s := string(b)
+	for _, a := range [][2]string{
+		{"func (e *Evaluator) evalExpr(expr Expr) (*Cell, error) {", "func (e *Evaluator) evalExprReal(expr Expr) (*Cell, error) {"},
+		{"func (e *Evaluator) evalStatement(stmt Statement) error {", "func (e *Evaluator) evalStatementReal(stmt Statement) error {"},
+	} {
+		if strings.Count(s, a[0]) != 1 {
+			return nil, fmt.Errorf("anchor %q not found exactly once in src/evaluator.go", a[0])
+		}
+		s = strings.Replace(s, a[0], a[1], 1)
+	}
+	s += `
+// --- appended by symgo for the in-package one-step harnesses (overlay only) ---
+
+var vhSummarise bool
+
+func (e *Evaluator) evalExpr(expr Expr) (*Cell, error) {
+	if vhSummarise {
+		return vhSumEvalExpr(e, expr)
+	}
+	return e.evalExprReal(expr)
+}
+
+func (e *Evaluator) evalStatement(stmt Statement) error {
+	if vhSummarise {
+		return vhSumEvalStatement(e, stmt)
+	}
+	return e.evalStatementReal(stmt)
+}
+`
+	return []byte(s), nil
 }
 
 // inpkgAnchorsOK checks that the in-package harness files still type-check against the
@@ -65,29 +117,24 @@ type loaded struct {
 	vh      *ssa.Package
 	fnNames []string // harness functions in ext (VH*)
 	inpkg   bool     // in-package harness files were loaded
-	skipped string   // why in-package harnesses were skipped
+
 }
 
 func loadProgram(extra map[string][]byte, withInpkg bool) (*loaded, error) {
 	ov := map[string][]byte{}
-	files := overlayFiles()
-	for virt, real := range files {
-		if !withInpkg && strings.HasPrefix(virt, filepath.Join(repoDir, "src")+"/") {
-			continue
-		}
+	for virt, real := range overlayFiles(withInpkg) {
 		b, err := os.ReadFile(real)
 		if err != nil {
 			return nil, err
 		}
 		ov[virt] = b
 	}
-	if !withInpkg {
-		// ext files that need in-package hooks are tagged by name *_inpkg.go
-		for virt := range ov {
-			if strings.HasSuffix(virt, "_inpkg.go") {
-				delete(ov, virt)
-			}
+	if withInpkg {
+		rw, err := rewrittenEvaluator()
+		if err != nil {
+			return nil, err
 		}
+		ov[filepath.Join(repoDir, "src", "evaluator.go")] = rw
 	}
 	for k, v := range extra {
 		ov[k] = v
@@ -125,20 +172,11 @@ func loadProgram(extra map[string][]byte, withInpkg bool) (*loaded, error) {
 	return l, nil
 }
 
-// load tries with the in-package harnesses first and degrades to the public-API
-// harnesses alone when those no longer type-check.
-func load(extra map[string][]byte) (*loaded, error) {
-	l, err := loadProgram(extra, true)
-	if err == nil {
-		return l, nil
-	}
-	l2, err2 := loadProgram(extra, false)
-	if err2 != nil {
-		return nil, fmt.Errorf("%v\n(and without in-package harnesses: %v)", err, err2)
-	}
-	l2.skipped = err.Error()
-	return l2, nil
-}
+// load loads /repo with the public-API harnesses (inpkg=false) or additionally with the
+// in-package harnesses and the rewritten evaluator (inpkg=true).
+func load(extra map[string][]byte) (*loaded, error) { return loadProgram(extra, false) }
+
+func loadInpkg() (*loaded, error) { return loadProgram(nil, true) }
 
 var stdSizes = &types.StdSizes{WordSize: 8, MaxAlign: 8}
 
